@@ -31,10 +31,10 @@ LEVEL_NOTE = ('Grids are pairwise non-degenerate by construction and the referen
 RULE = ("cases: package configurations; executions: one whole pipeline run (data file with all plants of the configuration) and one evaluation per planted source; non-trivial = "
         "distinct (configuration, planted model, A_V0, distance) with a non-identity parameter table or a multi-aperture package")
 ASSUMPTIONS = ["pairwise non-degenerate model grids (margin measured by the reference)", "photometric errors equal relative size on all bands"]
-REQUIRED_CLASSES = ['mode-2d', 'mode-3d', 'fmt-v1', 'fmt-v2', 'planted-at-av-range-end', 'planted-first-distance', 'planted-last-distance', 'permuted-table', 'listing-first-row', 'seds-on-different-grids', 'dead-model-in-package', 'plot-only-band-with-wrong-value']
+REQUIRED_CLASSES = ['mode-2d', 'mode-3d', 'fmt-v1', 'fmt-v2', 'planted-at-av-range-end', 'planted-first-distance', 'planted-last-distance', 'permuted-table', 'listing-first-row', 'seds-on-different-grids', 'dead-model-in-package', 'plot-only-band-with-wrong-value', 'seds-stored-in-Jy', 'pipeline-run-twice']
 TIMEOUT = {'quick': 600, 'thorough': 3000}
 
-AXES = {'fmt': ['v1', 'v2'], 'n_ap': [3, 1], 'n_models': [4, 2, 6], 'perm': ['rotated', 'identity', 'reversed'], 'sord': ['wav-desc', 'wav-asc'], 'rel': [0.01, 0.1], 'grids': ['same', 'interior'], 'dead': [False, True]}
+AXES = {'fmt': ['v1', 'v2'], 'n_ap': [3, 1], 'n_models': [4, 2, 6], 'perm': ['rotated', 'identity', 'reversed'], 'sord': ['wav-desc', 'wav-asc'], 'rel': [0.01, 0.1], 'grids': ['same', 'interior'], 'dead': [False, True], 'funit': ['mJy', 'Jy']}
 
 
 def setup(tier, seed):
@@ -62,7 +62,9 @@ def run_case(ctx, case, rec, d):
     n_models, n_ap, fmt, rel = case['n_models'], case['n_ap'], case['fmt'], case['rel']
     mode = '3d' if n_ap > 1 else '2d'
     perm = {'identity': list(range(n_models)), 'reversed': list(range(n_models))[::-1], 'rotated': [(i + 1) % n_models for i in range(n_models)]}[case['perm']]
-    pk = sp.build(d, 'pkg', fmt, n_models, n_ap, perm, sord=case['sord'], seed=seed, grids=case['grids'], dead=case['dead'])
+    pk = sp.build(d, 'pkg', fmt, n_models, n_ap, perm, sord=case['sord'], seed=seed, grids=case['grids'], dead=case['dead'], funit=case.get('funit', 'mJy'))
+    if case.get('funit', 'mJy') != 'mJy':
+        rec.cls('seds-stored-in-Jy')
     if case['grids'] != 'same' and fmt == 'v1':
         rec.cls('seds-on-different-grids')
     if case['dead']:
@@ -160,6 +162,23 @@ def run_case(ctx, case, rec, d):
         return
     rec.trans(2)
     rec.trace()
+    # ---- the same package fitted a second time after it has been listed: the records must be the same
+    try:
+        out2 = os.path.join(d, 'fits_again.out')
+        fit(data, bands, theta * u.arcsec, pk['md'], out2, n_data_min=2, extinction_law=law, av_range=[avlo, avhi], distance_range=np.array([dmin, dmax]) * u.kpc,
+            output_format=('N', 3), output_convolved=False)
+        fin = FitInfoFile(out2, 'r')
+        recs2 = list(fin)
+        fin.close()
+        from mc.canon import canon as _canon
+        strip = lambda r_: [r_.source, np.asarray(r_.av), np.asarray(r_.sc), np.asarray(r_.chi2), np.asarray(r_.model_id), np.asarray(r_.model_name)]
+        rec.trans()
+        rec.cls('pipeline-run-twice')
+        if [_canon(strip(a_)) for a_ in recs] != [_canon(strip(b_)) for b_ in recs2]:
+            rec.violation('pipeline|second-run-differs', {'stage': 'fit again after listing'}, {'problem': 'fitting the same data with the same package again, after write_parameters, gives other records'})
+    except Exception as e:
+        from mc.runner import exc_signature
+        rec.violation('pipeline|second-run|' + exc_signature(e), {'stage': 'fit again'}, {'type': type(e).__name__, 'msg': str(e)[:300]})
     if len(recs) != len(plants) or len(blocks) != len(plants):
         rec.violation('pipeline|record-count', {}, {'records': len(recs), 'listing_blocks': len(blocks), 'sources': len(plants)})
         return
